@@ -1,5 +1,66 @@
+/-
+Helper lemmas for `Bolt.Props.C04BktGet`: `Bucket.Get` on one bucket is a lookup in the
+bucket's item list, and the reference model's `apiGet` on the abstraction is the same lookup.
+-/
 import Bolt.Lemmas.BktOps
 namespace Bolt.Bkt.BktGetL
-open Bolt Bolt.BTree Bolt.Bkt
+open Bolt Bolt.BTree Bolt.Bkt Bolt.Bkt.BktOpsL
+
+/-- what `Get` answers on an item list: the value of the plain element with key `k` -/
+def specGet (l : List Item) (k : Bytes) : Option Bytes :=
+  match l.find? (fun i => i.key == k) with
+  | some i => if i.flags % 2 = 0 then some i.val else none
+  | none => none
+
+/-- `getAt` reads the element of `flatten` with key `k` -/
+theorem getAt_spec (fu : Nat) (k : Bytes) (b : Bk) (hi : InTx b.tree) (hd : depth b.tree ≤ fu) :
+    getAt fu k b = specGet (flatten b.tree) k := by
+  have hseek := OpsL.seek_find k fu b.tree true true none none hd hi (OpsL.inR_none k)
+  unfold getAt specGet
+  rw [hseek]
+  cases seekItem k fu b.tree with
+  | none => rfl
+  | some it =>
+    by_cases hk : it.key = k
+    · by_cases hf : it.flags % 2 = 0 <;> simp [Option.filter, hk, hf]
+    · simp [Option.filter, hk]
+
+theorem getAt_local (orig : Bk) (fu f : Nat) (path : List Bytes) (b : Bk) (k : Bytes)
+    (hc : curOk orig (f+1) path b = true) (hfu : f ≤ fu) :
+    getAt fu k b = specGet (flatten b.tree) k := by
+  obtain ⟨c1, _, _, c4, _, _, _⟩ := (curOk_succ ..).mp hc
+  exact getAt_spec fu k b c1 (Nat.le_trans c4 hfu)
+
+/-- `apiGet` on a bucket whose entries are the abstraction of the item list `l` -/
+theorem apiGet_abs (sub : Bytes → SVal) (hsub : ∀ n, (sub n).isBucket = true) (root : SVal)
+    (p : List Bytes) (s : Nat) (l : List Item) (k : Bytes)
+    (hp : bucketAt (topName :: p) root = some (s, l.map (absIt sub))) :
+    apiGet root (topName :: p) k = .ok (specGet l k) := by
+  unfold apiGet specGet
+  rw [hp]
+  simp only [apiPath_ne, Bool.false_eq_true, if_false]
+  rw [lookup_abs]
+  cases l.find? (fun i => i.key == k) with
+  | none => rfl
+  | some i =>
+    simp only [Option.map_some]
+    by_cases hf : i.flags % 2 = 1
+    · have hsb := hsub i.key
+      have h0 : ¬ i.flags % 2 = 0 := by omega
+      rw [absIt_bucket _ _ hf, if_neg h0]
+      cases hx : sub i.key with
+      | val w => rw [hx] at hsb; cases hsb
+      | bkt q e => rfl
+    · have h0 : i.flags % 2 = 0 := by omega
+      rw [absIt_plain _ _ hf, if_pos h0]
+
+/-- `Get` after an accepted `Put` on the item list -/
+theorem specGet_specPut (l : List Item) (k v : Bytes) (hb : isBucketAt l k = false) :
+    specGet (specPut l k v) k = some v := by
+  unfold specGet specPut
+  rw [hb]
+  simp only [Bool.false_eq_true, if_false]
+  rw [OpsL.insSorted_find_same { key := k, val := v, flags := 0 } l]
+  rfl
 
 end Bolt.Bkt.BktGetL
